@@ -195,7 +195,7 @@ theorem complete_calls_gen {s : Simp} (hs : SimpSound s) {o : Oracle} (ho : Orac
     (hmem : cfg.maxMem + 32 ≤ p.memLimit) (hdep : 1024 ≤ p.maxDepth)
     (hcodes : ∀ a, w.codeOf a = codeOf codes a)
     (hcb : ∀ a prog, codeOf codes a = some prog → ∀ b ∈ prog, b < 256)
-    (hz : ∀ a, SS a → C01.ZeroStorage w a) (hch : CreateHyp cfg p SS w)
+    (hz : ∀ a, SS a → C01.ZeroStorage w a) (hch : CreateHyp cfg p SS w) (hnh : cfg.hsto = false)
     (I : Interp) (hI : I.Std) (hbal : cfg.balances = true → BalHyp I cfg w)
     (hbound : cfg.balances = true → BalBound w) (hsha : cfg.sha3 = true → ShaInterp I p cfg)
     (hshaok : ∀ cs, VisitedC s o cfg codes (initC env codes this) cs → ShaOK I s cfg cs) (f0 : Evm.Frame)
@@ -211,7 +211,7 @@ theorem complete_calls_gen {s : Simp} (hs : SimpSound s) {o : Oracle} (ho : Orac
     (runC s o cfg env codes this fuel).depthCut = true ∨
     (runC s o cfg env codes this fuel).outOfFuel = true :=
   exploreC_complete (cfg := cfg) (codes := codes) (S := SS) (r := (w', h)) hs ho hmem hdep hcodes
-    hSc hcb hI hbal hsha hch hshaok fuel 0 [initC env codes this] {}
+    hSc hcb hI hbal hsha hch hnh hshaok fuel 0 [initC env codes this] {}
     (fun cs hm => by rw [List.mem_singleton.1 hm]; exact .start)
     ⟨initC env codes this, List.mem_singleton.2 rfl, Sat.nil I, w, f0, [], relC_init hR0 hthis hd0 hcb hS0 hz, ⟨n, hex⟩,
       fun hC => ⟨hbound hC, fun kc hm => absurd hm List.not_mem_nil⟩⟩
@@ -223,7 +223,7 @@ theorem complete_calls {s : Simp} (hs : SimpSound s) {o : Oracle} (ho : OracleSo
     (hmem : cfg.maxMem + 32 ≤ p.memLimit) (hdep : 1024 ≤ p.maxDepth)
     (hcodes : ∀ a, w.codeOf a = codeOf codes a)
     (hcb : ∀ a prog, codeOf codes a = some prog → ∀ b ∈ prog, b < 256)
-    (hz : ∀ a, Modelled codes this a → C01.ZeroStorage w a) (hnc : cfg.create = false)
+    (hz : ∀ a, Modelled codes this a → C01.ZeroStorage w a) (hnc : cfg.create = false) (hnh : cfg.hsto = false)
     (I : Interp) (hI : I.Std) (hbal : cfg.balances = true → BalHyp I cfg w)
     (hbound : cfg.balances = true → BalBound w) (hsha : cfg.sha3 = true → ShaInterp I p cfg)
     (hshaok : ∀ cs, VisitedC s o cfg codes (initC env codes this) cs → ShaOK I s cfg cs) (f0 : Evm.Frame)
@@ -238,7 +238,7 @@ theorem complete_calls {s : Simp} (hs : SimpSound s) {o : Oracle} (ho : OracleSo
     (runC s o cfg env codes this fuel).depthCut = true ∨
     (runC s o cfg env codes this fuel).outOfFuel = true := by
   rcases complete_calls_gen hs ho cfg env codes this fuel p w (Modelled codes this) (Or.inl rfl)
-    (fun _ _ h => modelled_of_code h) hmem hdep hcodes hcb hz (CreateHyp.off hnc) I hI hbal hbound hsha hshaok f0 hR0
+    (fun _ _ h => modelled_of_code h) hmem hdep hcodes hcb hz (CreateHyp.off hnc) hnh I hI hbal hbound hsha hshaok f0 hR0
     hthis hd0 n w' h hex with ⟨ce, hm, hsat, hc⟩ | hr
   · refine Or.inl ⟨ce, hm, hsat, ?_⟩
     rcases hc with ⟨h0, a1, a2, a3, hW, a5⟩ | hc
@@ -256,7 +256,7 @@ theorem complete_calls_create {s : Simp} (hs : SimpSound s) {o : Oracle} (ho : O
     (hcodes : ∀ a, w.codeOf a = codeOf codes a)
     (hcb : ∀ a prog, codeOf codes a = some prog → ∀ b ∈ prog, b < 256)
     (hz : ∀ a, ModelledC cfg codes this a → C01.ZeroStorage w a)
-    (hcr : cfg.create = true)
+    (hcr : cfg.create = true) (hnh : cfg.hsto = false)
     (hal : ∀ n, p.newAddress (w.created + n) = (cfg.allocBase + n) % 2 ^ 160)
     (hbw : ∀ a, w.balanceOf a < 2 ^ 256)
     (I : Interp) (hI : I.Std) (hbal : cfg.balances = true → BalHyp I cfg w)
@@ -275,7 +275,7 @@ theorem complete_calls_create {s : Simp} (hs : SimpSound s) {o : Oracle} (ho : O
     (runC s o cfg env codes this fuel).outOfFuel = true :=
   complete_calls_gen hs ho cfg env codes this fuel p w (ModelledC cfg codes this) (Or.inl (Or.inl rfl))
     (fun _ _ h => Or.inl (modelled_of_code h)) hmem hdep hcodes hcb hz
-    (fun hc => ⟨hal, fun n => Or.inr ⟨hc, n, rfl⟩, hbw⟩) I hI hbal hbound hsha hshaok f0 hR0 hthis hd0 n w' h hex
+    (fun hc => ⟨hal, fun n => Or.inr ⟨hc, n, rfl⟩, hbw⟩) hnh I hI hbal hbound hsha hshaok f0 hR0 hthis hd0 n w' h hex
 
 /-- `complete_calls` on the caller / callee pair of Props.C01: the reference EVM returns the callee's 32 bytes; no
     flag is raised in that run and its only end is an untagged halt, so it must be the reporting one -/
@@ -308,7 +308,7 @@ example : ∃ ce ∈ (runC foldSimp exOracle {} exEnv C01.exCodes 0x1000 100).en
           simp only [Option.map_some, Option.some.injEq] at hc
           subst hc
           exact hall q (List.mem_of_find?_eq_some hf) b hb)
-      (fun _ _ _ => ⟨rfl, rfl⟩) rfl exI exI_std (fun h => by cases h) (fun h => by cases h) (fun h => by cases h)
+      (fun _ _ _ => ⟨rfl, rfl⟩) rfl rfl exI exI_std (fun h => by cases h) (fun h => by cases h) (fun h => by cases h)
       (fun _ _ => shaOK_off rfl) _ hR rfl rfl 40 w' _ hex with
     ⟨ce, hm, _, hc⟩ | h | h | h
   · obtain ⟨ho', ht'⟩ := hshape ce hm
